@@ -121,6 +121,12 @@ func main() {
 		}
 	}
 	start := time.Now()
+	// replay artefacts of earlier runs of this property are stale
+	if old, _ := filepath.Glob(filepath.Join(verifDir, "replays", prop+"-*.json")); replay == "" {
+		for _, f := range old {
+			os.Remove(f)
+		}
+	}
 
 	scratch, err := os.MkdirTemp("", "verif-"+prop+"-")
 	if err != nil {
